@@ -221,6 +221,15 @@ VARIANTS = [
     ("type-checking-import", S, None, [(AF, "import string\n", "import string\nfrom typing import TYPE_CHECKING\n\nif TYPE_CHECKING:\n    from typing import IO\n")]),
     ("local-named-like-a-builtin", S, None, [(AF, "    for in_path, out_path in file_list:\n", "    for in_path, out_path in file_list:\n        input = in_path\n")]),
     ("module-level-tuple-assignment", S, None, [(AF, "_DEFAULT_SALT_LENGTH = 16", "_DEFAULT_SALT_LENGTH, _UNUSED_WIDTH = 16, 80")]),
+    # ---------------- language-level hazards (one-shot iterators, late binding, class-level mutables) -----------------
+    ("debug-listing-exhausts-the-word-generator", F, ["C10", "C12"], [(SI, "            words = [\n                (\n                    w\n                    if w in self.conflicting_words\n                    else self.sens_regex.sub(self._lookup_anon_word, w)\n                )\n                for w in words\n            ]\n", "            words = (\n                (\n                    w\n                    if w in self.conflicting_words\n                    else self.sens_regex.sub(self._lookup_anon_word, w)\n                )\n                for w in words\n            )\n            if logging.getLogger().isEnabledFor(logging.DEBUG):\n                logging.debug(\"Words after anonymization: %s\", list(words))\n")]),
+    ("word-generator-consumed-once", S, None, [(SI, "            words = [\n                (\n                    w\n                    if w in self.conflicting_words\n                    else self.sens_regex.sub(self._lookup_anon_word, w)\n                )\n                for w in words\n            ]\n", "            words = (\n                (\n                    w\n                    if w in self.conflicting_words\n                    else self.sens_regex.sub(self._lookup_anon_word, w)\n                )\n                for w in words\n            )\n")]),
+    ("dump-count-exhausts-the-generator", F, ["C17"], [(IP, "        for bits, anon_bits in ips:\n", "        if logging.getLogger().isEnabledFor(logging.DEBUG):\n            logging.debug(\"Dumping %d address mappings\", len(list(ips)))\n        for bits, anon_bits in ips:\n")]),
+    ("lazy-filters-collected-in-a-loop", F, ["C10"], [(SI, "        conflicting_words = set()\n        for sensitive_word in sensitive_words:\n            conflicting_words.update(\n                set([w for w in self.reserved_words if sensitive_word in w])\n            )\n", "        candidates = []\n        for sensitive_word in sensitive_words:\n            candidates.append(filter(lambda w: sensitive_word in w, self.reserved_words))\n        conflicting_words = set()\n        for c in candidates:\n            conflicting_words.update(c)\n")]),
+    ("filter-consumed-inside-the-round", S, None, [(SI, "            conflicting_words.update(\n                set([w for w in self.reserved_words if sensitive_word in w])\n            )\n", "            conflicting_words.update(\n                set(filter(lambda w: sensitive_word in w, self.reserved_words))\n            )\n")]),
+    ("class-level-reserved-set-updated-through-self", F, ["C13", "C10", "C07"], [(AF, "    def __init__(\n        self,\n        anon_pwd,", "    reserved_words = set(default_reserved_words)\n\n    def __init__(\n        self,\n        anon_pwd,"), (AF, "        self.reserved_words = set(default_reserved_words)\n", ""), (AF, "            self.reserved_words.update(reserved_words)", "            self.reserved_words |= set(reserved_words)")]),
+    ("class-level-default-shadowed-by-constructor", S, None, [(AF, "    def __init__(\n        self,\n        anon_pwd,", "    reserved_words = frozenset()\n\n    def __init__(\n        self,\n        anon_pwd,")]),
+    ("logging-extra-names-a-record-attribute", F, ["C14"], [(AF, 'logging.debug("Input line:  %s", line.rstrip())', 'logging.debug("Input line:  %s", line.rstrip(), extra={"lineno": 1})')]),
     ("unused-module-constant-from-library-call", S, None, [(SI, "_ANON_SENSITIVE_WORD_LEN = 6", "_ANON_SENSITIVE_WORD_LEN = 6\n_HEX_DIGITS = frozenset('0123456789abcdef')")]),
 ]
 
